@@ -369,6 +369,10 @@ def cmd_picmg_get_power(ipmi, args):
 
 
 def print_link_state(p, s):
+    if p is None:
+        # the channel exists but carries no link: Get Port State returned
+        # neither link info nor state
+        return
     intf_str = pyipmi.picmg.LinkDescriptor().get_interface_string(p.interface)
     link_str = pyipmi.picmg.LinkDescriptor().get_link_type_string(
             p.type, p.extension, p.sig_class)
